@@ -75,6 +75,10 @@ def jsonable(x, depth=0):
         return {str(k): jsonable(v, depth + 1) for k, v in x.items()}
     if isinstance(x, bytes):
         return {"$bytes": x.hex()}
+    if type(x).__name__ == "Decimal" and type(x).__module__ == "decimal":
+        return {"$decimal": str(x)}
+    if type(x).__name__ == "Fraction" and type(x).__module__ == "fractions":
+        return {"$fraction": [str(x.numerator), str(x.denominator)]}
     return {"$repr": repr(x)}
 
 
@@ -92,6 +96,14 @@ def unjson(x):
                 return tuple(unjson(i) for i in v)
             if k == "$bytes":
                 return bytes.fromhex(v)
+            if k == "$decimal":
+                from decimal import Decimal
+
+                return Decimal(v)
+            if k == "$fraction":
+                from fractions import Fraction
+
+                return Fraction(int(v[0]), int(v[1]))
             if k == "$surrogate":
                 return bytes.fromhex(v).decode("utf-8", "surrogatepass")
         return {k: unjson(v) for k, v in x.items()}
